@@ -4,7 +4,7 @@
 //! with caching for improved read performance on key-to-set relationships.
 
 use std::{
-    collections::{BinaryHeap, HashSet},
+    collections::HashSet,
     hash::Hash,
     ops::Not,
     sync::{
@@ -118,14 +118,16 @@ enum ConcurrentLogMessage<V> {
 
 #[derive(Debug)]
 struct ConcurrentLog<V> {
-    log: RwLock<BinaryHeap<VersionedOperation<V>>>,
+    // operations in the order they were issued; for one key this is also
+    // ascending epoch order
+    log: RwLock<Vec<VersionedOperation<V>>>,
     deferred_messages: SegQueue<ConcurrentLogMessage<V>>,
 }
 
 impl<V: Eq + Hash + Clone> ConcurrentLog<V> {
     const fn new() -> Self {
         Self {
-            log: RwLock::new(BinaryHeap::new()),
+            log: RwLock::new(Vec::new()),
             deferred_messages: SegQueue::new(),
         }
     }
@@ -143,18 +145,14 @@ impl<V: Eq + Hash + Clone> ConcurrentLog<V> {
     }
 
     fn apply_message_to_heap(
-        heap_lock: &mut BinaryHeap<VersionedOperation<V>>,
+        heap_lock: &mut Vec<VersionedOperation<V>>,
         op: ConcurrentLogMessage<V>,
     ) {
         match op {
             ConcurrentLogMessage::FlushUpTo(epoch) => {
-                while let Some(peek) = heap_lock.peek() {
-                    if peek.epoch <= epoch {
-                        heap_lock.pop();
-                    } else {
-                        break;
-                    }
-                }
+                // everything up to `epoch` is in the database now; newer
+                // operations stay staged
+                heap_lock.retain(|staged| staged.epoch > epoch);
             }
             ConcurrentLogMessage::AppendOperation(op) => {
                 heap_lock.push(op);
@@ -163,7 +161,7 @@ impl<V: Eq + Hash + Clone> ConcurrentLog<V> {
     }
 
     fn fix(
-        heap_lock: &mut BinaryHeap<VersionedOperation<V>>,
+        heap_lock: &mut Vec<VersionedOperation<V>>,
         message_queue: &SegQueue<ConcurrentLogMessage<V>>,
     ) {
         while let Some(message) = message_queue.pop() {
@@ -180,17 +178,16 @@ impl<V: Eq + Hash + Clone> ConcurrentLog<V> {
         let mut added = HashSet::with_hasher(FxBuildHasher::default());
         let mut removed = HashSet::with_hasher(FxBuildHasher::default());
 
+        // replay in issue order, the last operation on an element wins
         for op in log.iter() {
             match &op.op {
                 Operation::Insert(v) => {
-                    if removed.remove(v).not() {
-                        added.insert(v.clone());
-                    }
+                    removed.remove(v);
+                    added.insert(v.clone());
                 }
                 Operation::Remove(v) => {
-                    if added.remove(v).not() {
-                        removed.insert(v.clone());
-                    }
+                    added.remove(v);
+                    removed.insert(v.clone());
                 }
             }
         }
